@@ -23,17 +23,21 @@ deriving Repr, DecidableEq
 
 namespace UintSet
 
+/-- The word size that appears as the literal `64` in `uintSet.has` / `uintSet.insert`
+(`i < 64`, `i -= 64`, `i/64`, `i%64`); tied to the regenerated literals by `Props.C08.tie_uintset_literals`. -/
+def wordBits : Nat := 64
+
 /-- The zero value of the Go struct. -/
 def empty : UintSet := ⟨0#64, []⟩
 
 /-- `func (s *uintSet) has(i uint) bool` -/
 def has (s : UintSet) (i : Nat) : Bool :=
-  if i < 64 then
+  if i < wordBits then
     UintSet64.has s.lo i
   else
-    let i := i - 64
-    let iHi := i / 64
-    let iLo := i % 64
+    let i := i - wordBits
+    let iHi := i / wordBits
+    let iLo := i % wordBits
     decide (iHi < s.hi.length) && UintSet64.has (s.hi.getD iHi 0#64) iLo
 
 /-- `hi` after the growth step of `insert` (`append(s.hi, make([]uintSet64, iHi+1-len(s.hi))...)`). -/
@@ -42,13 +46,13 @@ def grow (hi : List (BitVec 64)) (iHi : Nat) : List (BitVec 64) :=
 
 /-- `func (s *uintSet) insert(i uint) bool`: the new set and whether this was the first insertion. -/
 def insert (s : UintSet) (i : Nat) : UintSet × Bool :=
-  if i < 64 then
+  if i < wordBits then
     let has := UintSet64.has s.lo i
     (⟨UintSet64.set s.lo i, s.hi⟩, !has)
   else
-    let i := i - 64
-    let iHi := i / 64
-    let iLo := i % 64
+    let i := i - wordBits
+    let iHi := i / wordBits
+    let iLo := i % wordBits
     let hi := grow s.hi iHi
     let w := hi.getD iHi 0#64
     let has := UintSet64.has w iLo
